@@ -2466,6 +2466,20 @@ def _nested_selection(outer, inner):
         return outer + inner
 
 
+def _rows_of_operands(frame):
+    """Whether head / tail of the elemwise ``frame`` can be taken from its operands
+
+    The selection is pushed into the operands that are not broadcast. On a single
+    partition, a series counts as a broadcast operand of a frame although it can
+    just as well hold a value for every row (assign, where, ...), it is not known
+    whether the rows have to be selected from it.
+    """
+    return frame.npartitions > 1 or not any(
+        isinstance(op, Expr) and op.ndim > 0 and frame._broadcast_dep(op)
+        for op in frame.operands
+    )
+
+
 def _rewrite_positional_selection(expr, kind: str):
     """``Expr.rewrite`` of the expressions that select partitions by position
 
@@ -2505,8 +2519,10 @@ class Head(Expr):
         raise NotImplementedError()
 
     def _simplify_down(self):
-        if isinstance(self.frame, Elemwise) and not (
-            isinstance(self.frame, AsType) and self.frame._infers_categories
+        if (
+            isinstance(self.frame, Elemwise)
+            and not (isinstance(self.frame, AsType) and self.frame._infers_categories)
+            and _rows_of_operands(self.frame)
         ):
             operands = [
                 (
@@ -2640,6 +2656,7 @@ class Tail(Expr):
             isinstance(self.frame, Elemwise)
             and not isinstance(self.frame, ResetIndex)
             and not (isinstance(self.frame, AsType) and self.frame._infers_categories)
+            and _rows_of_operands(self.frame)
         ):
             operands = [
                 (
